@@ -77,7 +77,9 @@ if ISOLATED:
     def sh2(cmd, cwd, timeout=3600):
         p = subprocess.run(cmd, shell=True, cwd=cwd, env=e2, capture_output=True, text=True, timeout=timeout)
         return p.returncode, p.stdout + p.stderr
-    rc, out = sh2("cargo build --release --offline 2>&1 | tail -5", simdir)
+    rc, out = sh2("cargo build --release --offline 2>&1 | grep -E '^error' -A5 | head -20", simdir)
+    if "error" in out:
+        print("SIM BUILD FAILED against the worktree:", out); sh("git checkout -q -- . "); sys.exit(2)
     out = ""
     if any(c in ("C15", "C20") for c in checks):
         sh2(f"RUSTFLAGS= cargo build --release --offline -p abasic-cli -p abasic-lsp --target-dir {root}/target/repo 2>&1 | tail -3", wt)
